@@ -1226,8 +1226,39 @@ def judge_driver(w, complete, closed, clean, died, got, probe):
     return viol
 
 
+def apply_scenario(cfg, idx):
+    """Scenario runs pin part of the drawn configuration (the schedule and
+    everything else stays seeded)."""
+    k = (idx - driver.SCENARIO_BASE) % 3
+    if k in (0, 1):
+        # two callers hammering the driver with commands, no faults,
+        # priority-weighted schedules: the reply-queue races
+        cfg.update(topology=1, fault_mode=0, enabled=[], weighted_sched=1,
+                   stepmix=False, greeting=None, slow_replies=False,
+                   upper_hex=False, slow_subscriber=0, callers=[],
+                   peer_packets=[], marathon=False, long_payloads=False,
+                   line_preempt=False, stall_phase=0)
+        cfg["bops"] = [[("read_mem", 0x64, 2), ("write_mem", 0x64, [1, 2]),
+                        ("read_mem", 0x23, 1)],
+                       [("set_breakpoint", 0x1000), ("read_mem", 0, 1),
+                        ("clear_breakpoint", 0x1000)]]
+        if k == 1:
+            cfg.update(latency_us=0, jitter_us=0, ack_delay_us=0)
+    else:
+        # two callers on the bare handler with NACKs: ack attribution
+        cfg.update(topology=0, fault_mode=1,
+                   enabled=["spurious_nack", "c2p_corrupt_body"],
+                   weighted_sched=1, marathon=False, long_payloads=False,
+                   stall_phase=0)
+        cfg.pop("bops", None)
+        cfg["callers"] = [[("a$b", 3, 0), ("", 2, 0)], [("}x", 3, 0)]]
+    return cfg
+
+
 def run_one(ch, render=False):
     cfg = gen_config(ch)
+    if getattr(ch, "run_index", 0) >= driver.SCENARIO_BASE:
+        cfg = apply_scenario(cfg, ch.run_index)
     w = World(ch, cfg)
     RANDOM_SHIM.reseed(ch.draw(1 << 30, "randomseed"))
     fresh_process_state()
@@ -1279,6 +1310,7 @@ def classify(oracle_id, detail, res):
 class Spec:
     prop = PROP
     tiers = {"quick": 20_000, "thorough": 1_200_000}
+    scenario_runs = {"quick": 3_000, "thorough": 60_000}
     selftest_samples = 200
     fresh_samples = 60
     shrink_runs = 1200
